@@ -148,15 +148,27 @@ int main(int argc, char **argv) {
     int keep = off1 > 0 && off1 <= 64 ? off1 : 0;
     memcpy(ref, asm_get_code(al), keep);
     hexdump("code1", ref, keep);
-    if (!strcmp(sc, "growth")) {
-      /* 2600 ten-byte instructions: crosses the 6000-byte growth step four times */
-      size_t n = 2600;
+    if (!strncmp(sc, "growth", 6)) {
+      /* growth | growthfit:<chunk>:<lead> | growthcount:<chunk>:<lead>
+         <lead> nops, then 2600 ten-byte instructions: crosses the 6000-byte growth step four times */
+      int chunk = 0, lead = 0, counting = 0;
+      if (sscanf(sc, "growthfit:%d:%d", &chunk, &lead) == 2) counting = 0;
+      else if (sscanf(sc, "growthcount:%d:%d", &chunk, &lead) == 2) counting = 1;
+      /* with a chunk size: start just below the first growth threshold (asm_set_offset) so that every alignment of the
+         instruction stream relative to the threshold can be tried cheaply; 40 ten-byte instructions cross it */
+      size_t n = chunk ? 40 : 2600;
       char *big = __real_malloc(n * 32 + 1);
       big[0] = 0;
       char *w = big;
+      if (chunk) asm_set_offset(al, 5900 + lead);
       for (size_t i = 0; i < n; i++) w += sprintf(w, "mov rdx, 0x1122334455667788\n");
-      int rc2 = LIB(asm_assemble_str(al, big)); OUT();
+      int rc2, cnt = -7;
+      printf("offb=%d\n", asm_get_offset(al));
+      if (chunk && !counting) asm_set_chunk_size(al, chunk);
+      if (chunk && counting) { rc2 = LIB(asm_assemble_string_counting_chunks(al, big, chunk, &cnt)); OUT(); }
+      else { rc2 = LIB(asm_assemble_str(al, big)); OUT(); }
       printf("asm2=%d off2=%d\n", rc2, asm_get_offset(al));
+      if (chunk && !counting) asm_set_chunk_size(al, 0);
       free(big);
     } else if (!strcmp(sc, "file") || !strcmp(sc, "file_count")) {
       write_file(path, "mov rcx, 0x5\nadd rcx, rdx\nnop\nret\n");
